@@ -597,7 +597,12 @@ func main() {
 	}
 	for i := 0; i < *zw; i++ {
 		// the receiver's window closes during the transfer and reopens when the application reads
+		// (the first one closes simultaneously: the FINs cross while data is still queued behind the
+		// closed window, so the exit test of the main loop is evaluated with unsent data)
 		s := scen{order: []int{0, 3}[g.Intn(2)], cfg: pickCfg(g, true)}
+		if i == 0 {
+			s.order = 2
+		}
 		s.cfg.RcvBufB = 64
 		s.cfg.MTUA, s.cfg.MTUB = 88, 88
 		s.w1, s.c1, s.w2 = 64+1+g.Intn(30), 1+g.Intn(2), []int{0, 5}[g.Intn(2)]
